@@ -58,9 +58,29 @@ where
 
     /// Resolves a relative offset (relative to another TextSelection) to an absolute one (in terms of to the underlying TextResource)
     fn absolute_offset(&'slf self, offset: &Offset) -> Result<Offset, StamError> {
+        let begin = self.beginaligned_cursor(&offset.begin)?;
+        let end = self.beginaligned_cursor(&offset.end)?;
+        //the offset must fit in this text, just like for textselection() and text_by_offset()
+        if begin > self.textlen() {
+            return Err(StamError::CursorOutOfBounds(
+                offset.begin,
+                "Begin cursor is out of bounds",
+            ));
+        } else if end > self.textlen() {
+            return Err(StamError::CursorOutOfBounds(
+                offset.end,
+                "End cursor is out of bounds",
+            ));
+        } else if end < begin {
+            return Err(StamError::InvalidOffset(
+                offset.begin,
+                offset.end,
+                "End must be greater than or equal to begin",
+            ));
+        }
         Ok(Offset::simple(
-            self.absolute_cursor(self.beginaligned_cursor(&offset.begin)?),
-            self.absolute_cursor(self.beginaligned_cursor(&offset.end)?),
+            self.absolute_cursor(begin),
+            self.absolute_cursor(end),
         ))
     }
 
